@@ -11,6 +11,7 @@ mod doc;
 mod stack;
 mod c15;
 mod c04;
+mod c03;
 
 fn main() {
     let mode = std::env::args().nth(1).unwrap_or_default();
@@ -57,6 +58,8 @@ fn dispatch(mode: &str, line: &str) -> String {
         "stack" => stack::run(line),
         "c15" => c15::run(line),
         "c04" => c04::run(line),
+        "c03" => c03::run_print(line),
+        "c14" => c03::run_spans(line),
         _ => format!("bad-mode {mode}"),
     }
 }
